@@ -1098,7 +1098,7 @@ _zoo("enriched_p1_bubble_tri", [
     'P1 = basix.ufl.element("Lagrange", "triangle", 1)', 'B = basix.ufl.element("Bubble", "triangle", 3)',
     "V = ufl.FunctionSpace(mesh, basix.ufl.enriched_element([P1, B]))",
     "u = ufl.TrialFunction(V)", "v = ufl.TestFunction(V)",
-    "a = ufl.inner(ufl.grad(u), ufl.grad(v)) * ufl.dx"])
+    "a = ufl.inner(ufl.grad(u), ufl.grad(v)) * ufl.dx"], tags=("kern", "zoo2", "npstr"))
 _zoo("symmetric_tensor_p1_tri", [
     'S = basix.ufl.element("Lagrange", "triangle", 1, shape=(2, 2), symmetry=True)',
     "V = ufl.FunctionSpace(mesh, S)", "u = ufl.TrialFunction(V)", "v = ufl.TestFunction(V)",
